@@ -206,9 +206,14 @@ func c18run(line string) (string, []string) {
 		var tags []string
 		var stale []string
 		prev := ""
+		prevKey := ""
 		for i := 0; i < n; i++ {
 			mtime := int64(t.u())
 			content := unhx(t.s())
+			verKey := string(content) // what identifies a version: the content, or (mtime,size) for the local backend
+			if backend == "f" {
+				verKey = fmt.Sprintf("%d/%d", mtime, len(content))
+			}
 			switch backend {
 			case "m":
 				items[key] = content
@@ -230,7 +235,14 @@ func c18run(line string) (string, []string) {
 				_, _, _, err := bk.NewRangeReaderEtag(ctx, key, 0, 1, prev)
 				_, isRefresh := err.(*pmtiles.RefreshRequiredError)
 				stale = append(stale, fmt.Sprint(b2i(isRefresh)))
+				if verKey != prevKey && !isRefresh {
+					viol = append(viol, fmt.Sprintf("backend %s: the object was replaced (version %d) but a read conditioned on the previous tag was not refused", backend, i))
+				}
+				if verKey == prevKey && isRefresh {
+					viol = append(viol, fmt.Sprintf("backend %s: a read carrying the current tag was refused (version %d)", backend, i))
+				}
 			}
+			prevKey = verKey
 			_, tag, _, err := bk.NewRangeReaderEtag(ctx, key, 0, 1, "")
 			if err != nil {
 				return "err", []string{"unconditioned read failed: " + err.Error()}
@@ -246,7 +258,7 @@ func c18run(line string) (string, []string) {
 			}
 			out = append(out, fmt.Sprint(cls[tg]))
 		}
-		return "classes " + strings.Join(out, " ") + " stale " + strings.Join(stale, " "), nil
+		return "classes " + strings.Join(out, " ") + " stale " + strings.Join(stale, " "), viol
 	case "fault":
 		kind := strings.Join(t.t[t.i:], " ")
 		var bk pmtiles.Bucket
